@@ -11,7 +11,7 @@
     * handleHooks (per weight: start calls, await pending calls, run task hooks,
       stop at the first weight with a critical failure),
     * TryTransition, the ControlEnvironment glue of core/server.go
-      (failed transition ⇒ GO_ERROR ⇒ forced ERROR), and
+      (failed transition ⇒ GO_ERROR ⇒ forced ERROR unless the environment is DONE), and
       environment.Manager.TeardownEnvironment.
 
   Everything is a total function; the outcome of each hook execution and of each
@@ -407,14 +407,28 @@ def tryTransition (env : Env) (hooks : List Hook) (e : Ev) (bodyOk rnFail : Bool
   fsmEvent env hooks e bodyOk rnFail
 
 /-- ControlEnvironment: a failed transition is followed by GO_ERROR, and if that
-    fails too the state is forced to ERROR. The reported result is that of the
-    requested transition. -/
+    fails too the state is forced to ERROR — unless the environment is DONE
+    (`goErr != nil && env.CurrentState() != "DONE"`): a finished environment stays
+    DONE. The reported result is that of the requested transition. -/
 def controlApi (env : Env) (hooks : List Hook) (e : Ev) (bodyOk rnFail : Bool) : Env × List Step × Result :=
   let r := tryTransition env hooks e bodyOk rnFail
   if r.2.2.isOk then r
   else
     let g := tryTransition r.1 hooks .GO_ERROR true false
     -- the real GoErrorTransition body does nothing and is not a scripted (observable) body
+    let gs := g.2.1.filter (fun s => match s with | .body .. => false | _ => true)
+    if g.2.2.isOk || g.1.st == .DONE then (g.1, r.2.1 ++ gs, r.2.2)
+    else ({ g.1 with st := .ERROR }, r.2.1 ++ gs ++ [Step.setState .ERROR], r.2.2)
+
+/-- The glue as it was before the repair "ControlEnvironment does not force ERROR on an
+    environment that is DONE": ERROR is forced whenever GO_ERROR is refused, whatever the state
+    (finding control_overlaps_teardown). NOT the code as it is; kept so that the former
+    refutation stays a true statement about the code as it was. -/
+def controlApiLegacy (env : Env) (hooks : List Hook) (e : Ev) (bodyOk rnFail : Bool) : Env × List Step × Result :=
+  let r := tryTransition env hooks e bodyOk rnFail
+  if r.2.2.isOk then r
+  else
+    let g := tryTransition r.1 hooks .GO_ERROR true false
     let gs := g.2.1.filter (fun s => match s with | .body .. => false | _ => true)
     if g.2.2.isOk then (g.1, r.2.1 ++ gs, r.2.2)
     else ({ g.1 with st := .ERROR }, r.2.1 ++ gs ++ [Step.setState .ERROR], r.2.2)
@@ -533,5 +547,27 @@ def runPar (hooks : List Hook) (nTasks : Nat) : Env → List PReq → List (List
     let r1 := step hooks nTasks env a
     let r2 := stepHeld hooks nTasks (!env.gone) r1.1 b
     (r1.2.1, r1.2.2, r1.1) :: (r2.2.1, r2.2.2, r2.1) :: runPar hooks nTasks r2.1 qs
+
+/-! ### the same with the glue as it was (`controlApiLegacy`) — not the code as it is -/
+
+def stepLegacy (hooks : List Hook) (nTasks : Nat) (env : Env) : Req → Env × List Step × Result
+  | .try_ e b r => tryTransition env hooks e b r
+  | .control e b r => if env.gone then (env, [], .notFound) else controlApiLegacy env hooks e b r
+  | .teardown f r1 r2 => if env.gone then (env, [], .notFound) else teardown env hooks f r1 r2 nTasks
+
+def stepHeldLegacy (hooks : List Hook) (nTasks : Nat) (listed : Bool) (env : Env) : Req → Env × List Step × Result
+  | .try_ e b r => tryTransition env hooks e b r
+  | .control e b r => if !listed then (env, [], .notFound) else controlApiLegacy env hooks e b r
+  | .teardown f r1 r2 => if !listed then (env, [], .notFound) else teardown env hooks f r1 r2 nTasks
+
+def runParLegacy (hooks : List Hook) (nTasks : Nat) : Env → List PReq → List (List Step × Result × Env)
+  | _, [] => []
+  | env, .one q :: qs =>
+    let r := stepLegacy hooks nTasks env q
+    (r.2.1, r.2.2, r.1) :: runParLegacy hooks nTasks r.1 qs
+  | env, .par a b :: qs =>
+    let r1 := stepLegacy hooks nTasks env a
+    let r2 := stepHeldLegacy hooks nTasks (!env.gone) r1.1 b
+    (r1.2.1, r1.2.2, r1.1) :: (r2.2.1, r2.2.2, r2.1) :: runParLegacy hooks nTasks r2.1 qs
 
 end EnvM
